@@ -388,8 +388,8 @@ def conv_shapes(tier):
     # generator types: the solver decides kept / converted / deleted for each; duplicated names
     add('toT-gens-2any', dir='toT', c01=c01shape(nolineq, [G_('any', 0, ' ge 1'), G_('any', 0, ' ge 1'), G_('com', 0, ' ge 2')], True),
         short=dict(generator=[2]), mop='quiet')
-    add('toT-gens-dup-del', dir='toT', c01=c01shape(AUT_SECS, [G_('kept', 1, ' ge 1'), G_('lacking', 1, ' ge 1'), G_('com', 2, ' ge 2')], True),
-        short=dict(block=[1], generator=[2]), mop='quiet')
+    add('toT-gens-dup-del', dir='toT', c01=c01shape(AUT_SECS, [G_('kept', 1, ' ge 1'), G_('lacking', 1, ' ge 1'), G_('com', 2, ' ge 2'), G_('com', 1, ' ge 3')], True),
+        short=dict(block=[1], generator=[0, 2, 3]), mop='quiet')       # two requested generators share a block: one GOFT request
     add('toT-old-simulator', dir='toT', simulator='AUTOUGH2', c01=c01shape([s for s in AUT_SECS if s not in ('LINEQ', 'MULTI')], [G_('com')], True),
         short=dict(frequency=True), mop='free')
     add('toT-MP', dir='toT', MP=True, c01=c01shape(AUT_SECS, [G_('com')], True), short=dict(block=[0]), filename='model.dat',
@@ -397,7 +397,7 @@ def conv_shapes(tier):
     add('toT-type-setter', dir='toT', via='type', c01=c01shape(AUT_SECS, [G_('lacking'), G_('kept', 2)], True), short=full, mop='quiet')
     # --- TOUGH2 -> AUTOUGH2
     hist_obj = dict(block=[('blk', 0), ('blk', 2)], connection=[('con', 0)], generator=[('blk', 0)])
-    hist_mixed = dict(block=[('name', ' zz 9'), ('blk', 1)], connection=[('name', [' a  1', ' zz 9']), ('con', 1)], generator=[('gen', 0), ('name', ' a  1')])
+    hist_mixed = dict(block=[('name', ' zz 9'), ('blk', 1)], connection=[('name', [' a  1', ' zz 9']), ('con', 1)], generator=[('gen', 0), ('blk', 1), ('name', ' a  1')])
     add('toA-options', dir='toA', c01=c01shape([s for s in T2_SECS if s != 'SOLVR'], [G_('any')], False), history=hist_obj, mop='free', filename='model')
     add('toA-solvr', dir='toA', c01=c01shape(T2_SECS, [G_('any', 1)], False), history=hist_mixed, mop='quiet', filename='MODEL.DAT')
     add('toA-MP', dir='toA', MP=True, c01=c01shape(T2_SECS, [G_('com')], False), history=hist_obj, filename='INFILE',
